@@ -95,8 +95,17 @@ class Caller:
     def default_flush(self):
         return 1 if bool(getattr(self.utils, "default_flush_subnormals", False)) else 0
 
-    def d(self, x, y, flush, default=False, form="scalar"):
-        """form: how the caller phrases the two operands - every dispatch branch of diff_ulp is a way to ask the same question"""
+    def d(self, x, y, flush, default=False, form="scalar", flagform="py", moddefault=None):
+        """form: how the caller phrases the two operands - every dispatch branch of diff_ulp is a way to ask the same question;
+        flagform: how the flag is phrased (Python bool, numpy.bool_, int); moddefault: the value the module-level default
+        utils.default_flush_subnormals has during the call (None: left as it is) - an explicit flag must win over it"""
+        if moddefault is not None:
+            saved = self.utils.default_flush_subnormals
+            self.utils.default_flush_subnormals = bool(moddefault)
+            try:
+                return self.d(x, y, flush, default, form, flagform)
+            finally:
+                self.utils.default_flush_subnormals = saved
         self.ncalls += 1
         if form == "0d_0d":
             x, y = numpy.array(x), numpy.array(y)
@@ -111,7 +120,8 @@ class Caller:
         if default:
             r = self.utils.diff_ulp(x, y)
         else:
-            r = self.utils.diff_ulp(x, y, flush_subnormals=bool(flush))
+            flag = bool(flush) if flagform == "py" else numpy.bool_(bool(flush)) if flagform == "np" else int(bool(flush))
+            r = self.utils.diff_ulp(x, y, flush_subnormals=flag)
         if form == "1d":
             r = r[0]
         return int(r)
@@ -139,14 +149,17 @@ def build(c, rc):
         if op == "d":
             x, y = fl(rc["x"], dt), fl(rc["y"], dt)
             default = rc.get("mode") == "default"
+            md, ff = rc.get("moddefault"), rc.get("flagform", "py")
             if default:
-                ev["flush"] = flush = c.default_flush()
+                ev["flush"] = flush = c.default_flush() if md is None else int(bool(md))
             ev.update(x=bits.nat(rc["x"]), y=bits.nat(rc["y"]), r=[0, []], rr=[0, []])
             ev["wx"] = c.witness(rc["x"], dt, flush)
             ev["wy"] = c.witness(rc["y"], dt, flush)
             form = rc.get("mode") if rc.get("mode") in FORMS else "scalar"
-            ev["r"] = bits.zint(c.d(x, y, flush, default, form))
-            ev["rr"] = bits.zint(c.d(y, x, flush, default, form))
+            if md is not None or ff != "py":
+                ev["mode"] = "%s/flag=%s/moddefault=%s" % (ev["mode"], ff, md)
+            ev["r"] = bits.zint(c.d(x, y, flush, default, form, ff, md))
+            ev["rr"] = bits.zint(c.d(y, x, flush, default, form, ff, md))
             return [ev]
         if op == "da":
             # one array call; one "d" event per element
@@ -214,6 +227,9 @@ def recipe_of(ev, batch_rc=None):
     if batch_rc is not None:
         return batch_rc
     rc = dict(op=ev["op"], fmt=ev["fmt"], flush=ev["flush"], mode=ev.get("mode", "scalar"))
+    if "/flag=" in rc["mode"]:       # "<mode>/flag=<py|np|int>/moddefault=<None|0|1>" (see build)
+        m, ff, md = rc["mode"].split("/")
+        rc.update(mode=m, flagform=ff.split("=")[1], moddefault=None if md.endswith("None") else int(md.split("=")[1]))
     for k in ("x", "y", "xr", "xi", "yr", "yi"):
         if k in ev:
             rc[k] = bits.unnat(ev[k])
@@ -437,6 +453,13 @@ def run(tier, seed):
                     # every other way of phrasing the same request (0-d arrays, mixed, lists, 1-d): all of them for the
                     # pairs that involve a subnormal or a zero (where the options matter), one in rotation otherwise
                     special = "sub" in (cls(px, dt), cls(py, dt)) or "zero" in (cls(px, dt), cls(py, dt))
+                    if special:
+                        # every phrasing of the FLAG (Python bool, numpy.bool_, int) under either value of the module-level
+                        # default: an explicit flag wins over the default, a true flag of any type enables flushing
+                        for ff in ("py", "np", "int"):
+                            for md in (0, 1):
+                                rcs.append(dict(op="d", fmt=dt, flush=flush, x=px, y=py, mode="scalar", flagform=ff, moddefault=md))
+                        rcs.append(dict(op="d", fmt=dt, x=px, y=py, mode="default", moddefault=flush))
                     for fi, form in enumerate(FORMS):
                         if special or (i + fi) % 5 == 0:
                             rcs.append(dict(op="d", fmt=dt, flush=flush, x=px, y=py, mode=form))
